@@ -335,3 +335,18 @@ package keeper
 //@   modifies bea_store
 //@   ensures @only_the_parameter_key err == nil ==> bea_store == beaParamsPut(old(bea_store), beaParams(bea_store))
 //@   ensures @rejected_changes_nothing err != nil ==> bea_store == old(bea_store)
+
+// the storage report: limit, usage, maximum and remaining purchasable capacity max(0, maximum - limit) (C08)
+//@ func Keeper.BeaconStorage(c, req) (resp, err)
+//@   props C08 C20
+//@   pure
+//@   requires beaParamsSet(bea_store)
+//@   let id := req.BeaconId
+//@   ensures @registered_only err == nil ==> bcHas(bea_store, id)
+//@   ensures @figures err == nil && blimHas(bea_store, id) ==> resp.CurrentLimit == blimGet(bea_store, id) && resp.CurrentUsed == bcGet(bea_store, id).NumInState && resp.Max == beaParams(bea_store).MaxStorageLimit && resp.MaxPurchasable == max(0, beaParams(bea_store).MaxStorageLimit - blimGet(bea_store, id))
+//@   ensures @identity err == nil ==> resp.BeaconId == bcGet(bea_store, id).BeaconId && resp.Owner == bcGet(bea_store, id).Owner
+
+//@ func Keeper.Params(c, req) (resp, err)
+//@   props C16 C20
+//@   pure
+//@   ensures err == nil && beaParamsSet(bea_store) ==> resp.Params == beaParams(bea_store)
